@@ -3,6 +3,7 @@ package c12
 // Structured generator of flash images for C12 (every random choice comes from r).
 
 import (
+	"fmt"
 	"math/rand"
 	"strings"
 
@@ -609,6 +610,10 @@ func genRecipe(r *rand.Rand) (*recipe, string) {
 		rc.regionBase = byte(3 + r.Intn(200))
 		rc.masterBase = byte(r.Intn(256))
 	}
+	if r.Intn(5) == 0 {
+		rc.reserved = [2]byte{byte(1 + r.Intn(255)), byte(r.Intn(256))} // non-zero reserved bytes must survive a save
+		kind += "+reserved"
+	}
 	if r.Intn(30) == 0 {
 		rc.tailBytes = 1 + r.Intn(blk-1) // image size not a multiple of the block size
 		kind += "+ragged"
@@ -643,6 +648,20 @@ func (prop) Gen(r *rand.Rand, tier string) []core.Case {
 			args["files"] = "1" // a volume with a file: outside the Lean model, oracles only
 		}
 		cs = append(cs, core.Case{Kind: kind, Op: randOps(r), Args: args})
+	}
+	// tree-level cases: volumes with files, command lines mixing tighten_me with the modelled edits
+	nt := n / 4
+	for made, tries := 0, 0; made < nt && tries < 20*nt; tries++ {
+		if c, ok := genTreeCase(r); ok {
+			cs = append(cs, c)
+			made++
+		}
+	}
+	// images of 2^28 bytes and beyond: built lazily, oracles only (thorough: they need ~1 GiB each)
+	if tier == "thorough" {
+		for _, b := range []int{65536, 65537, 65536 + 3} {
+			cs = append(cs, core.Case{Kind: "large", Op: "large", Args: map[string]string{"blocks": fmt.Sprint(b)}})
+		}
 	}
 	// a stream of non-flash / truncated inputs
 	for i := 0; i < n/40+3; i++ {
